@@ -649,6 +649,9 @@ struct Monitors {
     /// (consecutive failed submission attempts since the last success / resume, lower bound on the back-off level,
     /// time of the last attempt)
     shadow: BTreeMap<u32, (u64, usize, Option<u64>)>,
+    /// per queue: (backlog, max workers per allocation, max worker count) as the CLIENT configured them in the AddQueue
+    /// request (the limits C17 is about; the snapshot reads them through the code's own accessors)
+    configured: BTreeMap<u32, (u32, u32, Option<u32>)>,
     fails: Vec<(String, String, String)>,
 }
 
@@ -662,12 +665,26 @@ impl Monitors {
              resp_ok: bool, tick_res: Option<Option<bool>>) {
         // a queue that did not exist before this op starts with a fresh history
         self.shadow.retain(|q, _| queue_of(pre, *q).is_some());
-        // ---------------- C17: limits (state invariant)
-        for q in &post.queues {
-            if queued_count(q) > q.backlog as u64 {
-                self.fail("c17.backlog", "queued-exceeds-backlog", format!("queue {} queued={} backlog={}", q.id, queued_count(q), q.backlog));
+        self.configured.retain(|q, _| queue_of(pre, *q).is_some());
+        if let Op::AddQ { bl, wpa, mwc, .. } = op {
+            for q in &post.queues {
+                if queue_of(pre, q.id).is_none() {
+                    self.configured.insert(q.id, (*bl, *wpa, *mwc));
+                }
             }
-            if let Some(m) = q.max_worker_count {
+        }
+        // ---------------- C17: limits (state invariant), against the limits as configured by the client
+        for q in &post.queues {
+            let (cbl, cwpa, cmwc) = self.configured.get(&q.id).copied().unwrap_or((q.backlog, q.max_workers_per_alloc, q.max_worker_count));
+            if q.backlog != cbl || q.max_workers_per_alloc != cwpa || q.max_worker_count != cmwc {
+                self.fail("c17.max_workers", "limits-differ-from-configuration", format!(
+                    "queue {}: the queue works with backlog={} workers-per-alloc={} max-worker-count={:?}, configured were {} {} {:?}",
+                    q.id, q.backlog, q.max_workers_per_alloc, q.max_worker_count, cbl, cwpa, cmwc));
+            }
+            if queued_count(q) > cbl as u64 {
+                self.fail("c17.backlog", "queued-exceeds-backlog", format!("queue {} queued={} backlog={}", q.id, queued_count(q), cbl));
+            }
+            if let Some(m) = cmwc {
                 if active_workers(q) > m as u64 {
                     self.fail("c17.max_workers", "active-exceeds-max-worker-count", format!("queue {} active_workers={} max={}", q.id, active_workers(q), m));
                 }
